@@ -83,7 +83,7 @@ func runLazy(bi int, b *Behaviour, m *Map, hv *keyHarvester, o lazyOpts) (TraceR
 		mu.Lock()
 		c := &bgCall{seen: seen, aq: aq, known: ok, sid: 10000 + len(bgs), hadResp: qCtx.R() != nil, release: make(chan AR, 1)}
 		bgs = append(bgs, c)
-		w.events = append(w.events, ev{"ev": "RefreshStart", "i": 1, "q": absQ(aq), "sid": c.sid})
+		w.events = append(w.events, ev{"ev": "RefreshStart", "i": 1, "q": absQ(aq), "sid": c.sid, "hasresp": c.hadResp})
 		mu.Unlock()
 		var ar AR
 		select {
